@@ -63,7 +63,7 @@ class C21(Prop):
                'the harness computes the model\'s feature vector of an exception from the real object with isinstance/attribute reads']
     assumptions = ['exception chains are finite trees (a cyclic __cause__ chain makes the unchanged classifiers recurse until '
                    'RecursionError; outside the model)', 'scripted failures of the retried function are instances of Exception (CancelledError / KeyboardInterrupt propagate '
-                   'unconditionally and are outside the model)', 'HAIL_DONT_RETRY_500 is unset', 'errno numbers are those of Linux', 'ClientPayloadError carries its message in args[0]',
+                   'unconditionally and are outside the model)', 'HAIL_DONT_RETRY_500 is unset', 'errno numbers are those of Linux', 
                    'exceptions are not instances of aiodocker / urllib3 / requests / botocore classes']
 
     # ---- real objects ----------------------------------------------------------------------------
@@ -121,7 +121,10 @@ class C21(Prop):
         elif c == 'connector':
             e = a.ClientConnectorError(self.ck, self.build(sp['os']))
         elif c == 'payload':
-            e = a.ClientPayloadError({'incomplete': 'Response payload is not completed', 'other': 'bad payload'}[sp['msg']])
+            args = {'incomplete': ('Response payload is not completed',), 'other': ('bad payload',), 'noargs': (), 'none': (None,),
+                    'int': (5,), 'bytes': (b'Response payload is not completed',), 'tail': ('error', 'Response payload is not completed'),
+                    'mid': ('x. Response payload is not completed. <ConnectionResetError>',)}[sp['msg']]
+            e = a.ClientPayloadError(*args)
         elif c == 'clientOS':
             se = {'ssl': '[SSL: SSLV3_ALERT_BAD_RECORD_MAC] sslv3 alert bad record mac (_ssl.c:2548)', 'other': 'something'}[sp['strerror']]
             e = a.ClientOSError(sp['errno'], se)
@@ -165,7 +168,8 @@ class C21(Prop):
              b(isinstance(e, a.ServerDisconnectedError)),
              b(isinstance(e, asyncio.TimeoutError)),
              b(isinstance(e, a.ClientConnectorError)),
-             b(isinstance(e, a.ClientPayloadError) and 'Response payload is not completed' in e.args[0]),
+             (-1 if not isinstance(e, a.ClientPayloadError) else 0 if not e.args else 1 if not isinstance(e.args[0], str)
+              else 3 if 'Response payload is not completed' in e.args[0] else 2),
              b(isinstance(e, a.ClientOSError) and e.strerror and 'sslv3 alert bad record mac' in e.strerror),
              b(is_os),
              b(is_os and e.errno is not None),
@@ -221,7 +225,8 @@ class C21(Prop):
             return True
         if isinstance(e, a.ClientConnectorError) and self.ref_transient(e.os_error):
             return True
-        if isinstance(e, a.ClientPayloadError) and 'Response payload is not completed' in e.args[0]:
+        if (isinstance(e, a.ClientPayloadError) and len(e.args) > 0 and isinstance(e.args[0], str)
+                and 'Response payload is not completed' in e.args[0]):
             return True
         if isinstance(e, a.ClientOSError) and e.strerror and 'sslv3 alert bad record mac' in e.strerror:
             return True
@@ -255,7 +260,7 @@ class C21(Prop):
                 out.append({'c': 'httpxCRE', 'status': s_, 'body': body, 'pad': pad})
         out += [{'c': 'gcp', 'codes': k} for k in ('quota', 'other', 'none')]
         out += [{'c': k} for k in ('srvTimeout', 'srvDisc', 'timeout', 'sockTimeout', 'transient', 'value', 'runtime', 'key', 'cancelled')]
-        out += [{'c': 'payload', 'msg': m} for m in ('incomplete', 'other')]
+        out += [{'c': 'payload', 'msg': m} for m in ('incomplete', 'other', 'noargs', 'none', 'int', 'bytes', 'tail', 'mid')]
         for en in self.ERRNOS:
             for c in ('os', 'reset', 'refused'):
                 out.append({'c': c, 'errno': en})
@@ -291,11 +296,12 @@ class C21(Prop):
         return sp
 
     def _category(self, sp):
-        e = self.build(sp)
-        return (self.U.is_limited_retries_error(e), self.U.is_rate_limit_error(e), self.U.is_transient_error(e))
+        """(limited, rate-limit, transient) of a spec by the REFERENCE classification (used to compose scripts and for the measured
+        distribution; never the code under test, which may be broken)"""
+        return self.ref_classes(self.build(sp))
 
     def _pools(self, rng):
-        """exception specs by what the REAL classifiers say (used only to compose interesting scripts)"""
+        """exception specs by class (used only to compose interesting scripts)"""
         if not hasattr(self, '_pool_cache'):
             pools = {}
             cand = list(self._leaves_cache)
@@ -460,6 +466,9 @@ class C21(Prop):
 
     def oracle(self, c, out):
         if out and out[0].startswith('IMPL-EXC'):
+            if c['k'] == 'classify':
+                return (f"classification: a classifier is not total: on {json.dumps(c['exc'])} it raised {out[0][9:]} (inside the retry "
+                        f'loop this unrelated exception would replace the original error)')
             return out[0]
         if c['k'] == 'classify':
             e = self.build(c['exc'])
